@@ -350,7 +350,7 @@ def _standins(vc):
         bound="3-bus ring with two gens, AC and DC OPF: a cost entry of a dropped / out-of-service element next to others, linear costs with "
               "constant and reactive terms next to a pwl cost, a lone cq0, a dcline cost with gen labels (0, 1) and (3, 1)",
         script="import sys\nfrom replaylib.opf_cost import main_dropped_row, main_more\n"
-               "for f in (main_dropped_row, main_more):\n    try:\n        f()\n    except SystemExit as e:\n        if e.code:\n            raise\n",
+               "from replaylib import run_all\nrun_all(main_dropped_row, main_more)\n",
         timeout=900,
         known={F_LIN: r"REPRODUCED: linear costs with cp0 / cq1 / cq0 next to a pwl cost, run(dc)?opp: "}))
 
